@@ -213,6 +213,10 @@ Definition mul_last (new : list sh) (x : sh) : list sh :=
   | _, _ => new
   end.
 
+(* tuple style (S50 fix): the shape of an already flattened rank is concatenated, like its ids and
+   coordinates:  curr_shape += shape if isinstance(shape, tuple) else (shape,) *)
+Definition comps (x : sh) : list sh := match x with ST l => l | SZ _ => [x] end.
+
 Fixpoint flat_shape_loop (style : Z) (depth levels i : nat) (s new cur : list sh) : list sh :=
   match s with
   | [] => new
@@ -221,7 +225,7 @@ Fixpoint flat_shape_loop (style : Z) (depth levels i : nat) (s new cur : list sh
     else if Nat.ltb (depth + levels) i
          then flat_shape_loop style depth levels (S i) s' (new ++ [x]) cur
     else if Z.eqb style 0 then
-      let cur' := cur ++ [x] in
+      let cur' := cur ++ comps x in
       flat_shape_loop style depth levels (S i) s'
         (if Nat.eqb i (depth + levels) then new ++ [ST cur'] else new) cur'
     else if Z.eqb style 1 then
